@@ -72,13 +72,15 @@ def step_class(step, prev):
     """Discriminating condition of a step, from its arguments and the state logged before it."""
     a, arg = step["a"], step.get("arg") or {}
     d = (prev or {}).get("dbg") or {}
-    if a in ("set", "setraw", "copy", "copynull", "tinit"):
+    if a in ("set", "setself", "setraw", "copy", "copynull", "tinit"):
         i = arg.get("id", 0) - 1
         was = "new" if a == "tinit" else ("ext" if (d.get("ext") or [0] * 8)[i:i + 1] == [1] else "inl")
         mx = 12 if a == "tinit" else (d.get("max") or [0] * 8)[i:i + 1]
         mx = mx[0] if isinstance(mx, list) and mx else (mx if isinstance(mx, int) else 0)
         if a == "set":
             n = len(arg.get("data") or []) + 1
+        elif a == "setself":
+            n = arg.get("n", 0) + 1
         elif a == "setraw":
             n = arg.get("n", 0)
         elif a == "copynull":
@@ -132,11 +134,12 @@ def gen_histories(ck, n, steps):
         cap = [min(s - 4, 252) for s in sizes]           # input selection only
         live = [True] * ns
         last = [[] for _ in range(ns)]                   # best guess of the text (to pick equal / near-miss inputs)
+        ilen = [0] * ns                                  # stored length when it follows from the calls alone, else None
         beh = [{"a": "init", "arg": {"sizes": sizes}}]
         for _ in range(steps):
             lv = [i for i in range(ns) if live[i]]
             dead = [i for i in range(ns) if not live[i]]
-            op = rng.choice(["set"] * 6 + ["setraw"] * 2 + ["copy"] * 5 + ["copynull", "compare", "compare", "compare",
+            op = rng.choice(["set"] * 6 + ["setself"] * 2 + ["setraw"] * 2 + ["copy"] * 5 + ["copynull", "compare", "compare", "compare",
                             "inequal", "inequal", "locate", "locate", "fini", "make", "make", "tinit", "tinit"])
             if op in ("make", "tinit") and not dead:
                 op = "fini" if rng.random() < 0.3 else "set"
@@ -155,20 +158,40 @@ def gen_histories(ck, n, steps):
                 beh.append({"a": "set", "arg": {"id": i + 1, "data": d, "mode": mode, "fail": fail}})
                 if not fail:
                     last[i] = d
+                    ilen[i] = k + 1
+                else:
+                    ilen[i] = None
+            elif op == "setself":
+                cand = [i for i in lv if ilen[i] is not None]      # only where the stored length is known from the calls
+                if not cand:
+                    continue
+                i = rng.choice(cand)
+                n0 = ilen[i]
+                off = min(rng.choice([0, 0, 1, 2, rng.randrange(n0 + 1)]), n0)
+                k = rng.choice([n0 - off, max(n0 - off - 1, 0), max(n0 - off - 1, 0), rng.randrange(n0 - off + 1)])
+                beh.append({"a": "setself", "arg": {"id": i + 1, "off": off, "n": k}})
+                last[i] = (last[i] + [0] * n0)[off:off + k]
+                ilen[i] = k + 1
             elif op == "setraw":
                 i = rng.choice(lv)
-                beh.append({"a": "setraw", "arg": {"id": i + 1, "n": around(i)}})
+                k = around(i)
+                beh.append({"a": "setraw", "arg": {"id": i + 1, "n": k}})
                 last[i] = []
+                ilen[i] = k
             elif op == "copy":
                 i, j = rng.choice(lv), rng.choice(lv)
                 fail = 1 if rng.random() < 0.1 else 0
                 beh.append({"a": "copy", "arg": {"id": i + 1, "src": j + 1, "fail": fail}})
                 if not fail:
                     last[i] = last[j]
+                    ilen[i] = ilen[j]
+                elif i != j:
+                    ilen[i] = None
             elif op == "copynull":
                 i = rng.choice(lv)
                 beh.append({"a": "copynull", "arg": {"id": i + 1}})
                 last[i] = []
+                ilen[i] = 0
             elif op in ("compare", "locate"):
                 i = rng.choice(lv)
                 d = list(last[rng.choice(lv)])
@@ -195,18 +218,23 @@ def gen_histories(ck, n, steps):
                 live[i] = False
             elif op == "make":
                 i = rng.choice(dead)
-                how = rng.choice(["init", "new", "node"])
-                sz = rng.choice(SIZES) if how == "init" else rng.choice(NEWLENS) if how == "new" else rng.choice(NODELENS)
+                how = rng.choice(["init", "new", "node", "macro", "nodemacro"])
+                sz = (rng.choice(SIZES) if how == "init" else rng.choice(NEWLENS) if how == "new" else
+                      rng.choice(NODELENS) if how == "node" else 16)
                 beh.append({"a": "make", "arg": {"id": i + 1, "size": sz, "how": how}})
                 live[i] = True
                 last[i] = []
-                cap[i] = min(sz - 4, 252) if how == "init" else rng.choice([28, 60, 124, 252]) if how == "new" else rng.choice([20, 84, 212])
+                ilen[i] = 0
+                cap[i] = (min(sz - 4, 252) if how in ("init", "macro", "nodemacro") else
+                          rng.choice([28, 60, 124, 252]) if how == "new" else rng.choice([20, 84, 212]))
             elif op == "tinit":
                 i = rng.choice(dead)
                 j = rng.choice(lv + [-1]) if lv else -1
-                beh.append({"a": "tinit", "arg": {"id": i + 1, "src": j + 1, "fail": 1 if rng.random() < 0.1 else 0}})
+                fail = 1 if rng.random() < 0.1 else 0
+                beh.append({"a": "tinit", "arg": {"id": i + 1, "src": j + 1, "fail": fail}})
                 live[i] = True
                 last[i] = last[j] if j >= 0 else []
+                ilen[i] = 0 if j < 0 else (ilen[j] if not fail else None)
                 cap[i] = 12
         behs.append(beh)
     return behs
